@@ -14,4 +14,7 @@ O(op, keys) == [op |-> op, keys |-> keys]
 MCProgR == (1 :> << O("Remove", {E1}), O("Set", {E2}) >>
          @@ 2 :> << O("SetBatch", {E3}), O("RemoveBatch", {E4}) >>)
 MCInitR == {E1, E4}
+(* a fresh install: no directory, no file; and a parent and its child both added (E2 is below E1) *)
+MCProgF == (1 :> << O("Set", {E1}) >> @@ 2 :> << O("SetBatch", {E2, E3}) >>)
+MCInitF == {}
 =============================================================================
